@@ -96,8 +96,9 @@ def build(desc, perm):
             kw['capacity_allocations'] = _caps(it['alloc'])
         n = t.add_node(name=it['name'], site=it['site'], ntype=NodeType[it['kind']], **kw)
         objs[i] = n
-        for j, m in enumerate(it['comps']):
-            comps[(i, j)] = n.add_component(name='c%d' % j, model_type=ComponentModelType[m])
+        order = (perm.get('comps') or {}).get(str(i)) or list(range(len(it['comps'])))
+        for j in order:
+            comps[(i, j)] = n.add_component(name='c%d' % j, model_type=ComponentModelType[it['comps'][j]])
 
     def iface(end):
         if end[0] == 'c':
@@ -150,6 +151,8 @@ def inslice_labels(desc):
     """labels carried by service ports that face an interface of a (non-facility) node"""
     out = []
     for sd in desc['svcs']:
+        if sd.get('removed'):
+            continue
         for lab in sd['labels']:
             if sd['ends'][lab['end']][0] != 'fac':
                 out.append(lab['name'])
@@ -224,6 +227,34 @@ def parse_pdp(js):
     return [r['ReturnPolicyIdList'], r['CombinedDecision'], cats]
 
 
+def snapshot_api(t):
+    """abstract slice of a topology read through the API only (in-slice port labels included)"""
+    ports = []
+    for ifs in t.interface_list:
+        p = ifs.get_peers()
+        if p and p[0] and p[0].labels:
+            ports.append(p[0].labels.local_name)
+    return {'nodes': [snap_node(n) for n in t.nodes.values()], 'ports': ports, 'ports_agree': True,
+            'svcs': [snap_svc(s_) for s_ in t.network_services.values()], 'facs': [f.name for f in t.facilities.values()]}
+
+
+def parse_summary(text):
+    """LogCollector.__str__ -> [[vms, cores, p4s, components, services, vmdetails], sites, facilities]"""
+    parts = {}
+    for seg in text.split(';'):
+        seg = seg[1:] if seg.startswith(' ') else seg
+        key, _, rest = seg.partition(' ')
+        parts[key] = rest
+    comp = dict(x.split(':') for x in parts['compute'].split(','))
+    lst = lambda k: [x for x in parts.get(k, '').split(',') if x]
+    vmd = [[x.rsplit(':', 1)[0], int(x.rsplit(':', 1)[1])] for x in lst('vmdetails')]
+    unknown = set(parts) - {'compute', 'sites', 'facilities', 'components', 'services', 'vmdetails'}
+    if unknown:
+        raise ValueError('unknown summary sections %r' % sorted(unknown))
+    return [[int(comp['vms']), int(comp['cores']), int(comp['p4s']), lst('components'), lst('services'), vmd],
+            sorted(lst('sites')), sorted(lst('facilities'))]
+
+
 def log_obs(lc):
     a = lc.attributes
     return {'nodes': [[c.core, c.ram, c.disk] for c in a['nodes']], 'core': a['core_count'], 'vm': a['vm_count'],
@@ -235,7 +266,7 @@ def observe_one(desc, perm, with_asm):
     from fim.authz.attribute_collector import ResourceAuthZAttributes
     from fim.logging.log_collector import LogCollector
     out = {'snap': None, 'validate': None, 'attrs': None, 'pdp': None, 'log': None, 'asm': None, 'asm_log': None, 'ops': None,
-           'asm_raw': None, 'late_validate': None}
+           'asm_raw': None, 'late_validate': None, 'summary': None, 'asm_exact': None}
     try:
         t, svcs = build(desc, perm)
     except Exception as e:
@@ -302,6 +333,10 @@ def observe_one(desc, perm, with_asm):
         for s in sources():
             lc.collect_resource_attributes(source=s)
         out['log'] = log_obs(lc)
+        try:
+            out['summary'] = parse_summary(str(lc))
+        except Exception as e:
+            out['summary'] = {'err': type(e).__name__}
     except Exception as e:
         out['log'] = {'err': type(e).__name__}
     if with_asm and desc['mode'] == 'topo':
@@ -322,6 +357,18 @@ def observe_one(desc, perm, with_asm):
                 al, lg = from_asm()
                 out['asm'] = canon_attrs(al)
                 out['asm_log'] = lg
+                if not desc['extras']:
+                    # the graph the ASM path walks: reproduce its reload (same calls) and read it through the API: an
+                    # independently obtained enumeration of the same elements, from which the model (OAsm) must predict
+                    # the ASM answer up to order (the component order of a reload is not reproducible: set of int ids)
+                    from fim.user.topology import ExperimentTopology
+                    pg = NetworkXGraphImporter().import_graph_from_string(graph_string=t.serialize())
+                    asm = NetworkXASMFactory.create(pg)
+                    t2 = ExperimentTopology(graph_string=asm.serialize_graph())
+                    t2.validate()
+                    lc3 = LogCollector()
+                    lc3.collect_resource_attributes(source=asm)
+                    out['asm_exact'] = {'snap': snapshot_api(t2), 'attrs': al, 'log': log_obs(lc3)}
             except Exception as e:
                 out['asm'] = {'err': type(e).__name__}
         else:
@@ -440,7 +487,19 @@ def c_extra(e):
     raise ValueError(e)
 
 
-def c_one(desc, o):
+def log_vals(lg):
+    if isinstance(lg, dict) and 'err' not in lg:
+        return [lg['nodes'], lg['core'], lg['vm'], lg['p4'], lg['comps'], lg['svcs'], lg['facs'], lg['sites']]
+    return lg
+
+
+def c_graph(sn):
+    """the elements of a reloaded topology as an abstract graph, in its listing order"""
+    return clist(['(GNode %s)' % c_node(n) for n in sn['nodes']] + ['(GPort %s)' % c_ostr(p) for p in sn['ports']] +
+                 ['(GSvc %s)' % c_svc(v) for v in sn['svcs']] + ['(GFac %s)' % cstr(f) for f in sn['facs']])
+
+
+def c_ops(desc, o):
     ops = []
     for op in (o['ops'] or []):
         if op[0] == 'topo':
@@ -449,14 +508,21 @@ def c_one(desc, o):
             ops.append('(ONode %s)' % c_node(op[1]))
         else:
             ops.append('(OSvc %s)' % c_svc(op[1]))
-    ops += [c_extra(e) for e in desc['extras']]
-    lg = o['log']
-    if isinstance(lg, dict) and 'err' not in lg:
-        lv = [lg['nodes'], lg['core'], lg['vm'], lg['p4'], lg['comps'], lg['svcs'], lg['facs'], lg['sites']]
-    else:
-        lv = lg
-    obs = [o['attrs'], o['pdp'], lv, o['asm']]
-    return '(%s, (%s, %s), %s)' % (clist(ops), cbool(desc['flags'][0]), cbool(desc['flags'][1]), py_val(obs))
+    return ops
+
+
+def c_one(desc, o):
+    """-> list of Coq ccase terms for one build"""
+    ops = c_ops(desc, o)
+    full = ops + [c_extra(e) for e in desc['extras']]
+    obs = [o['attrs'], o['pdp'], log_vals(o['log']), o['asm']]
+    out = ['(CFull %s %s %s (%s))' % (clist(full), cbool(desc['flags'][0]), cbool(desc['flags'][1]), py_val(obs))]
+    if o.get('summary') is not None and isinstance(o['log'], dict) and 'err' not in o['log']:
+        out.append('(CSummary %s (%s))' % (clist(ops), py_val(o['summary'])))
+    if o.get('asm_exact'):
+        ae = o['asm_exact']
+        out.append('(CCanon [OAsm %s] (%s) (%s))' % (c_graph(ae['snap']), py_val(ae['attrs']), py_val(log_vals(ae['log']))))
+    return out
 
 
 # ------------------------------------------------------------------------------------------------
@@ -471,7 +537,9 @@ def end_site(desc, end):
 
 def expected(desc, validated):
     """what the authorization request must name, from the description of the slice"""
-    nodes, svcs, facs = desc['nodes'], desc['svcs'], desc['facs']
+    nodes = [n for n in desc['nodes'] if not n.get('removed')]
+    svcs = [s for s in desc['svcs'] if not s.get('removed')]
+    facs = [f for f in desc['facs'] if not f.get('removed')]
     ex = {}
     ex['cpu'] = sorted(n['caps'][0] for n in nodes if n.get('caps'))
     ex['ram'] = sorted(n['caps'][1] for n in nodes if n.get('caps'))
@@ -488,7 +556,7 @@ def expected(desc, validated):
         sites = set(end_site(desc, e) for e in s['ends'])
         if s['site'] is not None:
             ssite = s['site']
-        elif validated and len(sites) == 1:
+        elif validated and not s.get('novalidate') and len(sites) == 1:
             ssite = list(sites)[0]
         else:
             ssite = None
@@ -629,7 +697,7 @@ def check_log(desc, o):
         return 'log components %r, direct tally %r' % (l['comps'], ex['compcount'])
     if sorted(l['svcs']) != ex['svcs']:
         return 'log services %r, direct tally %r' % (sorted(l['svcs']), ex['svcs'])
-    if l['facs'] != sorted(f['name'] for f in desc['facs']):
+    if l['facs'] != sorted(f['name'] for f in desc['facs'] if not f.get('removed')):
         return 'log facilities %r' % l['facs']
     if not ex['need_sites'] <= set(l['sites']) or not set(l['sites']) <= ex['allowed_sites']:
         return 'log sites %r, slice uses %r' % (l['sites'], sorted(ex['need_sites']))
@@ -815,6 +883,21 @@ def gen_perms(desc, rng, tier):
             out.append(p)
     add({'items': list(range(ni)), 'svcs': list(reversed(range(ns)))})
     add({'items': list(reversed(range(ni))), 'svcs': list(range(ns))})
+    multi = [i for i, n in enumerate(desc['nodes']) if len(n.get('comps', [])) >= 2]
+
+    def comp_orders(how):
+        out_ = {}
+        for i in multi:
+            o = list(range(len(desc['nodes'][i]['comps'])))
+            if how == 'rev':
+                o.reverse()
+            else:
+                rng.shuffle(o)
+            out_[str(i)] = o
+        return out_
+    if multi:
+        # the same node built with its components added in another order
+        add({'items': list(range(ni)), 'svcs': list(range(ns)), 'comps': comp_orders('rev')})
     if tier == 'thorough' and ni <= 3 and ns <= 3:
         # exhaustive over both creation orders for small slices (<= 36 orders)
         for a in itertools.permutations(range(ni)):
@@ -831,7 +914,9 @@ def gen_perms(desc, rng, tier):
         for _ in range(2 if tier == 'quick' else 6):
             a = list(range(ni)); b = list(range(ns))
             rng.shuffle(a); rng.shuffle(b)
-            add({'items': a, 'svcs': b})
+            add({'items': a, 'svcs': b, 'comps': comp_orders('rnd') if rng.random() < 0.6 else {}})
+    for p in out:
+        p.setdefault('comps', {})
     return out
 
 
@@ -855,7 +940,10 @@ def gen_parts(desc, rng):
 
 def _obs_worker(case):
     """runs in a worker process: one build of one case with the real library"""
-    o = observe_one(case, case['perm'], case.get('asm', False))
+    if case.get('mode') == 'history':
+        o = observe_history(case)
+    else:
+        o = observe_one(case, case['perm'], case.get('asm', False))
     reset_stores()
     return o
 
@@ -882,15 +970,22 @@ def desc_key(case):
 
 
 def identity_perm(case):
-    return {'items': list(range(len(case['nodes']) + len(case['facs']))), 'svcs': list(range(len(case['svcs'])))}
+    return {'items': list(range(len(case['nodes']) + len(case['facs']))), 'svcs': list(range(len(case['svcs']))), 'comps': {}}
+
+
+def is_identity(case):
+    p = case['perm']
+    i = identity_perm(case)
+    return p['items'] == i['items'] and p['svcs'] == i['svcs'] and not any(
+        v != sorted(v) for v in (p.get('comps') or {}).values())
 
 
 class Slices(Stream):
     name = 'slices'
     header = ('From Coq Require Import List ZArith NArith Bool.\nImport ListNotations.\n'
               'From FIM Require Import Base.Str Model.Collect11.\n')
-    case_type = 'list op * (bool * bool) * val'
-    check_fn = 'check11'
+    case_type = 'list ccase'
+    check_fn = 'check11_cases'
     shard = 60
     rule = ('one case = one slice description built in ONE creation order (field perm) with the real ExperimentTopology '
             'API; each description is built in several orders: identity, services reversed, nodes reversed, 2 random '
@@ -930,6 +1025,7 @@ class Slices(Stream):
             with open(p) as f:
                 d = json.load(f)
             for c in (d if isinstance(d, list) else [d]):
+                c['perm'].setdefault('comps', {})
                 out.append(c)
         return out
 
@@ -938,7 +1034,7 @@ class Slices(Stream):
         if o is None:
             o = observe_one(case, case['perm'], case.get('asm', False))
             reset_stores()
-        if case['perm'] == identity_perm(case):
+        if is_identity(case):
             self.base[desc_key(case)] = o
         return o
 
@@ -950,7 +1046,7 @@ class Slices(Stream):
         return self.base[k]
 
     def to_coq(self, case, o):
-        return c_one(case, o)
+        return clist(c_one(case, o))
 
     def oracle(self, case, o):
         if isinstance(o['attrs'], dict) and o['attrs'].get('err', '').startswith('build:'):
@@ -977,7 +1073,7 @@ class Slices(Stream):
             w = check_authz(case, {'attrs': o['asm_raw'], 'validate': 'ok', 'pdp': None}, with_pdp=False)
             if w:
                 return 'collected from the serialized model (which validates its copy): ' + w
-        if case['perm'] != identity_perm(case):
+        if not is_identity(case):
             b = self.base_obs(case)
             if canon_attrs(o['attrs']) != canon_attrs(b['attrs']):
                 return 'creation order %s gives different authorization attributes than the identity order' % json.dumps(case['perm'])
@@ -1003,7 +1099,8 @@ class Slices(Stream):
             h['builds'] += 1
             h['mode_' + c['mode']] += 1
             h['asm_collections'] += 1 if (o['asm'] is not None or o.get('asm_raw') is not None) else 0
-            h['order_identity' if c['perm'] == identity_perm(c) else 'order_permuted'] += 1
+            h['order_identity' if is_identity(c) else 'order_permuted'] += 1
+            h['component_order_permuted'] += 1 if any(v != sorted(v) for v in (c['perm'].get('comps') or {}).values()) else 0
             h['validated'] += 1 if c['validate'] else 0
             h['validate_rejected'] += 1 if (c['validate'] and o['validate'] != 'ok') else 0
             h['build_failed'] += 1 if (isinstance(o['attrs'], dict) and str(o['attrs'].get('err', '')).startswith('build:')) else 0
@@ -1096,11 +1193,399 @@ class Slices(Stream):
         return case
 
 
+# ------------------------------------------------------------------------------------------------
+# histories: ONE long-lived topology that is edited, ONE long-lived collector pair
+# ------------------------------------------------------------------------------------------------
+
+def free_ports(cur):
+    """interfaces of live nodes not used by a live service: (end, site, dedicated?)"""
+    used = set(json.dumps(e) for s in cur['svcs'] if not s.get('removed') for e in s['ends'])
+    out = []
+    for i, n in enumerate(cur['nodes']):
+        if n.get('removed'):
+            continue
+        if n['kind'] == 'Switch':
+            out += [(['sw', i, k], n['site'], True) for k in range(n['nports'])]
+            continue
+        for j, m in enumerate(n['comps']):
+            ty, nd, nsh = MODELS[m]
+            if ty != 'FPGA':
+                out += [(['c', i, j, k], n['site'], True) for k in range(nd)]
+                out += [(['c', i, j, k], n['site'], False) for k in range(nsh)]
+    return [f for f in out if json.dumps(f[0]) not in used]
+
+
+def gen_history(rng):
+    base = gen_desc(rng, mirror_heavy=rng.random() < 0.5)
+    base['extras'] = []
+    base['mode'] = 'history'
+    base['perm'] = identity_perm(base)
+    base['asm'] = False
+    cur = copy.deepcopy(base)
+    steps, states = [['collect']], [copy.deepcopy(cur)]
+    names = PORTNAMES
+    nsteps = rng.choice([3, 4, 5, 6])
+    k = 0
+    while k < nsteps:
+        k += 1
+        live_nodes = [i for i, n in enumerate(cur['nodes']) if not n.get('removed')]
+        live_svcs = [i for i, v in enumerate(cur['svcs']) if not v.get('removed')]
+        used_nodes = set(e[1] for i in live_svcs for e in cur['svcs'][i]['ends'] if e[0] in ('c', 'sw'))
+        used_facs = set(e[1] for i in live_svcs for e in cur['svcs'][i]['ends'] if e[0] == 'fac')
+        kind = rng.choice(['add_node', 'add_comp', 'add_svc', 'add_svc', 'label', 'label', 'remove_svc', 'add_fac',
+                           'remove_fac', 'remove_node', 'set_caps', 'set_site', 'collect_only'])
+        ed = None
+        if kind == 'add_node':
+            i = len(cur['nodes'])
+            nd = {'name': 'h%d' % i, 'kind': 'VM', 'site': rng.choice(SITES), 'caps': [rng.choice([1, 2, 4]), rng.choice([4, 8]), rng.choice([10, 100])],
+                  'alloc': None, 'comps': [rng.choice(['SmartNIC_ConnectX_6', 'GPU_RTX6000', 'NVME_P4510'])]}
+            cur['nodes'].append(nd)
+            ed = ['add_node', copy.deepcopy(nd)]
+        elif kind == 'add_comp':
+            vms = [i for i in live_nodes if cur['nodes'][i]['kind'] != 'Switch']
+            if vms:
+                i = rng.choice(vms)
+                m = rng.choice(['SmartNIC_ConnectX_6', 'SmartNIC_ConnectX_5', 'GPU_Tesla_T4', 'NVME_P4510'])
+                cur['nodes'][i]['comps'].append(m)
+                ed = ['add_comp', i, len(cur['nodes'][i]['comps']) - 1, m]
+        elif kind == 'add_svc':
+            fp = free_ports(cur)
+            ded = [f for f in fp if f[2] and f[0][0] == 'c']
+            ty = rng.choice(['PortMirror', 'PortMirror', 'FABNetv4Ext', 'FABNetv6Ext', 'L2Bridge'])
+            f = rng.choice(ded) if (ty == 'PortMirror' and ded) else (rng.choice(fp) if fp and ty != 'PortMirror' else None)
+            if f is not None:
+                labs = inslice_labels(cur)
+                sd = {'name': 'hs%d' % len(cur['svcs']), 'type': ty, 'ends': [f[0]], 'bw': rng.choice([None, 10, 25]),
+                      'site': rng.choice([None, None, f[1]]),
+                      'mirror': (rng.choice((labs or names) + names[:2]) if ty == 'PortMirror' else None),
+                      'labels': ([{'end': 0, 'name': rng.choice(names[:3])}] if rng.random() < 0.3 else []),
+                      'novalidate': True}
+                cur['svcs'].append(sd)
+                ed = ['add_svc', copy.deepcopy(sd)]
+        elif kind == 'label':
+            # give a service port the name some mirror service mirrors: the exemption of that mirror flips
+            cands = [(i, e) for i in live_svcs for e in range(len(cur['svcs'][i]['ends']))
+                     if not any(l['end'] == e for l in cur['svcs'][i]['labels'])]
+            mirrored = [cur['svcs'][i]['mirror'] for i in live_svcs if cur['svcs'][i]['type'] == 'PortMirror']
+            if cands:
+                i, e = rng.choice(cands)
+                nm = rng.choice(mirrored) if (mirrored and rng.random() < 0.8) else rng.choice(names)
+                cur['svcs'][i]['labels'].append({'end': e, 'name': nm})
+                ed = ['label', i, e, nm]
+        elif kind == 'remove_svc' and live_svcs:
+            i = rng.choice(live_svcs)
+            cur['svcs'][i]['removed'] = True
+            ed = ['remove_svc', i]
+        elif kind == 'add_fac':
+            fd = {'name': 'HFAC-%d' % len(cur['facs']), 'site': rng.choice(SITES), 'bw': None}
+            cur['facs'].append(fd)
+            ed = ['add_fac', copy.deepcopy(fd)]
+        elif kind == 'remove_fac':
+            c = [i for i, f in enumerate(cur['facs']) if not f.get('removed') and i not in used_facs]
+            if c:
+                i = rng.choice(c)
+                cur['facs'][i]['removed'] = True
+                ed = ['remove_fac', i]
+        elif kind == 'remove_node':
+            c = [i for i in live_nodes if i not in used_nodes]
+            if c and len(live_nodes) > 1:
+                i = rng.choice(c)
+                cur['nodes'][i]['removed'] = True
+                ed = ['remove_node', i]
+        elif kind == 'set_caps':
+            vms = [i for i in live_nodes if cur['nodes'][i]['kind'] != 'Switch']
+            if vms:
+                i = rng.choice(vms)
+                caps = [rng.choice([1, 6, 16]), rng.choice([2, 12]), rng.choice([20, 200])]
+                cur['nodes'][i]['caps'] = caps
+                ed = ['set_caps', i, caps]
+        elif kind == 'set_site':
+            c = [i for i in live_nodes if i not in used_nodes and cur['nodes'][i]['kind'] != 'Switch'
+                 and not any(MODELS[m][0] in IMPLICIT_NS for m in cur['nodes'][i]['comps'])]
+            if c:
+                i = rng.choice(c)
+                st_ = rng.choice(SITES)
+                cur['nodes'][i]['site'] = st_
+                ed = ['set_site', i, st_]
+        if ed is not None:
+            steps.append(ed)
+        steps.append(['collect'])
+        states.append(copy.deepcopy(cur))
+    base['steps'] = steps
+    base['states'] = states
+    return base
+
+
+def apply_edit(t, cur, ed):
+    """apply one edit to the live topology; cur = description BEFORE the edit (indices are stable)"""
+    from fim.slivers.capacities_labels import Capacities, Labels
+    from fim.user.component import ComponentModelType
+    from fim.slivers.network_service import ServiceType
+    from fim.slivers.network_node import NodeType
+
+    def node_obj(i):
+        return t.nodes[cur['nodes'][i]['name']]
+
+    def iface(end):
+        if end[0] == 'c':
+            return node_obj(end[1]).components['c%d' % end[2]].interface_list[end[3]]
+        if end[0] == 'sw':
+            return node_obj(end[1]).interface_list[end[2]]
+        return t.facilities[cur['facs'][end[1]]['name']].interface_list[0]
+    k = ed[0]
+    if k == 'add_node':
+        nd = ed[1]
+        n = t.add_node(name=nd['name'], site=nd['site'], ntype=NodeType[nd['kind']], capacities=_caps(nd['caps']))
+        for j, m in enumerate(nd['comps']):
+            n.add_component(name='c%d' % j, model_type=ComponentModelType[m])
+    elif k == 'add_comp':
+        node_obj(ed[1]).add_component(name='c%d' % ed[2], model_type=ComponentModelType[ed[3]])
+    elif k == 'add_svc':
+        sd = ed[1]
+        kw = {}
+        if sd['bw'] is not None:
+            kw['capacities'] = Capacities(bw=sd['bw'])
+        if sd['site'] is not None:
+            kw['site'] = sd['site']
+        if sd['type'] == 'PortMirror':
+            ns = t.add_port_mirror_service(name=sd['name'], from_interface_name=sd['mirror'], to_interface=iface(sd['ends'][0]), **kw)
+        else:
+            ns = t.add_network_service(name=sd['name'], nstype=ServiceType[sd['type']], interfaces=[iface(e) for e in sd['ends']], **kw)
+        for lab in sd['labels']:
+            ns.interface_list[lab['end']].labels = Labels(local_name=lab['name'])
+    elif k == 'label':
+        ns = t.network_services[cur['svcs'][ed[1]]['name']]
+        target = iface(cur['svcs'][ed[1]]['ends'][ed[2]]).node_id
+        sp = [x for x in ns.interface_list if x.get_peers() and x.get_peers()[0].node_id == target]
+        sp[0].labels = Labels(local_name=ed[3])
+    elif k == 'remove_svc':
+        t.remove_network_service(cur['svcs'][ed[1]]['name'])
+    elif k == 'add_fac':
+        t.add_facility(name=ed[1]['name'], site=ed[1]['site'])
+    elif k == 'remove_fac':
+        t.remove_facility(name=cur['facs'][ed[1]]['name'])
+    elif k == 'remove_node':
+        t.remove_node(cur['nodes'][ed[1]]['name'])
+    elif k == 'set_caps':
+        node_obj(ed[1]).set_property('capacities', _caps(ed[2]))
+    elif k == 'set_site':
+        node_obj(ed[1]).site = ed[2]
+    else:
+        raise ValueError(ed)
+
+
+def observe_history(desc):
+    """-> {'collects': [per collect step {...}], 'err': ...}"""
+    from fim.authz.attribute_collector import ResourceAuthZAttributes
+    from fim.logging.log_collector import LogCollector
+    out = {'collects': [], 'err': None, 'validate': None}
+    try:
+        t, _ = build(desc, desc['perm'])
+        if desc['validate']:
+            try:
+                t.validate()
+                out['validate'] = 'ok'
+            except Exception as e:
+                out['validate'] = type(e).__name__
+        az_long, lc_long = ResourceAuthZAttributes(), LogCollector()
+        az_early = ResourceAuthZAttributes()      # created before any edit, used once at the very end
+        ci = 0
+        ncollect = sum(1 for s_ in desc['steps'] if s_[0] == 'collect')
+        for st in desc['steps']:
+            if st[0] != 'collect':
+                apply_edit(t, desc['states'][ci - 1], st)
+                continue
+            cur = desc['states'][ci]
+            ci += 1
+            o = {'snap': snapshot(t, cur)}
+            az_long.collect_resource_attributes(source=t)
+            lc_long.collect_resource_attributes(source=t)
+            o['long'] = attrs_list(az_long)
+            o['long_log'] = log_obs(lc_long)
+            az = ResourceAuthZAttributes()
+            az.collect_resource_attributes(source=t)
+            lc = LogCollector()
+            lc.collect_resource_attributes(source=t)
+            o['attrs'] = attrs_list(az)
+            o['pdp'] = parse_pdp(az.transform_to_pdp_request())
+            o['log'] = log_obs(lc)
+            o['summary'] = parse_summary(str(lc))
+            az.collect_resource_attributes(source=t)     # twice in a row on the same collector
+            lc.collect_resource_attributes(source=t)
+            o['twice'] = attrs_list(az)
+            o['twice_log'] = log_obs(lc)
+            o['early'] = None
+            if ci == ncollect:
+                az_early.collect_resource_attributes(source=t)
+                o['early'] = attrs_list(az_early)
+            o['validate'] = out['validate']
+            out['collects'].append(o)
+    except Exception as e:
+        out['err'] = type(e).__name__ + ':' + str(e)[:200]
+    return out
+
+
+def accumulate(maps):
+    """what ONE collector holds after it was fed the slices whose fresh answers are `maps` (independent restatement of the
+    documented accumulation: per-resource lists concatenate, site lists are unions without duplicates, switch-p4 sticks)"""
+    acc = collections.OrderedDict()
+    setk = {U['site'], U['PortMirror'], U['FABNetv4Ext'], U['FABNetv6Ext']}
+    for m in maps:
+        for k, v in m:
+            if k == U['type']:
+                if k not in acc or v == ['switch-p4']:
+                    acc[k] = list(v)
+            elif k in setk:
+                cur = acc.setdefault(k, [])
+                for x in v:
+                    if x not in cur:
+                        cur.append(x)
+            else:
+                acc.setdefault(k, []).extend(v)
+    return canon_attrs([[k, v] for k, v in acc.items()])
+
+
+class Histories(Stream):
+    name = 'histories'
+    header = Slices.header
+    case_type = 'list ccase'
+    check_fn = 'check11_cases'
+    shard = 25
+    rule = ('one case = ONE long-lived ExperimentTopology, built from a generated description and then EDITED 3-6 times '
+            '(add/remove node, component, service, facility; change capacities / site; label a service port with the name a '
+            'mirror service mirrors so that its exemption flips), with a collection after every edit by: the SAME '
+            'long-lived ResourceAuthZAttributes/LogCollector, a fresh pair, the fresh pair a second time in a row, and '
+            '(last step) a collector created before the first edit; the model gets the current slices in storage order '
+            'and predicts all of them exactly; non-trivial = at least one edit changed the fresh answer; distinct by history')
+
+    def __init__(self):
+        self.cache = {}
+
+    def gen(self, rng, tier):
+        n = int(os.environ.get('C11_NH') or (14 if tier == 'quick' else 150))
+        out = [gen_history(rng) for _ in range(n)]
+        self.cache.update(precompute(out))
+        return out
+
+    def corpus(self):
+        out = []
+        if os.environ.get('C11_NO_CORPUS'):
+            return out
+        for p in sorted(glob.glob(os.path.join(VERIF, 'corpus', 'C11', 'hist_*.json'))):
+            with open(p) as f:
+                out.append(json.load(f))
+        return out
+
+    def observe(self, case):
+        o = self.cache.pop(stable_hash(case), None)
+        if o is None:
+            o = observe_history(case)
+            reset_stores()
+        return o
+
+    def to_coq(self, case, o):
+        terms = []
+        snaps = []
+        for c in o['collects']:
+            snaps.append('(OTopo %s)' % c_slice(c['snap']))
+            obs = [c['attrs'], c['pdp'], log_vals(c['log']), None]
+            terms.append('(CFull [%s] false false (%s))' % (snaps[-1], py_val(obs)))
+            terms.append('(CSummary [%s] (%s))' % (snaps[-1], py_val(c['summary'])))
+            terms.append('(CAttrsLog %s (%s) (%s))' % (clist(snaps), py_val(c['long']), py_val(log_vals(c['long_log']))))
+            terms.append('(CAttrsLog [%s; %s] (%s) (%s))' % (snaps[-1], snaps[-1], py_val(c['twice']), py_val(log_vals(c['twice_log']))))
+            if c['early'] is not None:
+                terms.append('(CAttrsLog [%s] (%s) (%s))' % (snaps[-1], py_val(c['early']), py_val(log_vals(c['log']))))
+        if o['err'] and not o['collects']:
+            terms.append('(CSummary [] (VNone))' if False else '(CAttrsLog [] (%s) (%s))' % (
+                py_val([[U['type'], ['sliver']]]), py_val([[], 0, 0, 0, [], [], [], []])))
+        return clist(terms)
+
+    def oracle(self, case, o):
+        if o['err']:
+            if o['err'].startswith('TopologyException') or 'build' in o['err']:
+                return None       # the edit script could not be applied (generator artefact)
+            return 'history raised ' + o['err']
+        if case['validate'] and o['validate'] != 'ok':
+            return None
+        fresh = []
+        for i, c in enumerate(o['collects']):
+            cur = case['states'][i]
+            d = dict(cur); d['extras'] = []; d['flags'] = [False, False]
+            if not c['snap']['ports_agree']:
+                return 'collect %d: in-slice port labels seen through the API differ from the labels set' % i
+            w = check_authz(d, c) or check_log(d, c)
+            if w:
+                return 'collect %d (fresh collector, after %s): %s' % (i, json.dumps(self.edits_before(case, i))[:300], w)
+            fresh.append(c['attrs'])
+            if canon_attrs(c['long']) != accumulate(fresh):
+                return ('collect %d: the long-lived collector does not hold exactly the accumulation of the %d slices it '
+                        'was fed' % (i, i + 1))
+            if canon_attrs(c['twice']) != accumulate([c['attrs'], c['attrs']]):
+                return 'collect %d: collecting twice in a row is not the accumulation of the same slice twice' % i
+            if c['early'] is not None and c['early'] != c['attrs']:
+                return 'collect %d: a collector created before the edits answers differently from a fresh one' % i
+        return None
+
+    @staticmethod
+    def edits_before(case, i):
+        out, ci = [], 0
+        for st in case['steps']:
+            if st[0] == 'collect':
+                ci += 1
+                if ci > i:
+                    break
+            else:
+                out.append(st[:2] if st[0] in ('add_node', 'add_svc', 'add_fac') else st)
+        return out
+
+    def key(self, case, o):
+        cs = [canon_attrs(c['attrs']) for c in o['collects']]
+        if len(cs) >= 2 and any(a != b for a, b in zip(cs, cs[1:])):
+            return stable_hash([case['nodes'], case['svcs'], case['facs'], case['steps']])
+        return None
+
+    def describe(self, case, o):
+        return {'case': {'nodes': case['nodes'], 'svcs': case['svcs'], 'steps': case['steps']},
+                'impl_last_collect': ({k: o['collects'][-1][k] for k in ('attrs', 'long')} if o['collects'] else o['err'])}
+
+    def histogram(self, cases, obs):
+        h = collections.Counter()
+        for c, o in zip(cases, obs):
+            h['histories'] += 1
+            h['collects'] += len(o['collects'])
+            h['script_not_applicable'] += 1 if o['err'] else 0
+            for st in c['steps']:
+                h['step_' + st[0]] += 1
+            # exemption flips: a mirror site present at one collect and absent at the next (or the reverse)
+            ms = [dict(x['attrs']).get(U['PortMirror'], []) for x in o['collects']]
+            h['mirror_site_set_changed'] += sum(1 for a, b in zip(ms, ms[1:]) if a != b)
+        return dict(h)
+
+    def shrink(self, case, failing):
+        case = copy.deepcopy(case)
+        # drop trailing steps while the failure persists
+        while True:
+            idx = [i for i, s_ in enumerate(case['steps']) if s_[0] == 'collect']
+            if len(idx) <= 1:
+                break
+            c2 = copy.deepcopy(case)
+            c2['steps'] = case['steps'][:idx[-2] + 1]
+            c2['states'] = case['states'][:len(idx) - 1]
+            try:
+                ok = failing(c2)
+            except Exception:
+                ok = False
+            if not ok:
+                break
+            case = c2
+        return case
+
+
 class C11(Check):
     pid = 'C11'
     translators = ['gen_collect']
     model_targets = ['Model/Collect11.vo']
-    streams = [Slices()]
+    streams = [Slices(), Histories()]
     trusted_base = [
         'Coq 8.16.1 kernel (coqc), vm_compute for the correspondence evaluation; no native_compute',
         'Print Assumptions of every C11 theorem: Closed under the global context (no axioms)',
@@ -1119,6 +1604,29 @@ class C11(Check):
         'sites are set by validate())',
         'sites and names are non-empty strings; capacities are Python ints',
     ]
+
+    def refuted_witnesses(self):
+        def pm_not_dispatched():
+            """Coq: C11_dispatch_classes_refuted (PortMirrorService produced by the API, not routed). Replay on the code."""
+            from fim.authz.attribute_collector import ResourceAuthZAttributes
+            from fim.logging.log_collector import LogCollector
+            from fim.user.topology import ExperimentTopology
+            from fim.user.component import ComponentModelType
+            t = ExperimentTopology()
+            n = t.add_node(name='n1', site='RENC')
+            c = n.add_component(name='c1', model_type=ComponentModelType.SmartNIC_ConnectX_6)
+            t.add_port_mirror_service(name='pm1', from_interface_name='blah', to_interface=c.interface_list[1])
+            src = t.network_services['pm1']
+            res = []
+            for cls in (ResourceAuthZAttributes, LogCollector):
+                try:
+                    cls().collect_resource_attributes(source=src)
+                    res.append('accepted')
+                except Exception as e:
+                    res.append(type(e).__name__)
+            reset_stores()
+            return any(r != 'accepted' for r in res), {'source_class': type(src).__name__, 'outcome': res}
+        return [('C11_dispatch_classes_refuted', pm_not_dispatched)]
 
     def extra_static(self, ctx):
         """the compression dictionary of the cases files is the same list in the model and in the harness"""
